@@ -410,7 +410,7 @@ def _dyadic_c(rng):
     return rng.choice([-1.0, 1.0]) * 2.0 ** rng.randint(-8, 8)
 
 
-def gen_cases(ctx, n_dy, n_real, n_rev, n_mask):
+def gen_cases(ctx, n_dy, n_real, n_rev, n_mask, n_few=0):
     rng = ctx.rng
     cases = []
     sigs = siftcore.real_signals(ctx.seed * 7 + 2, n_dy + n_real + n_rev + n_mask)
@@ -471,6 +471,21 @@ def gen_cases(ctx, n_dy, n_real, n_rev, n_mask):
         case['max_imfs'] = 4
         case.update(transform={'scale': c}, compare='tol')
         cases.append(case)
+    # few-extrema sign flips: short random walks / smoothed noise lose ONE kind of extremum (two maxima, one minimum or the reverse)
+    # after a few iterations far more often than the long signals above - the branch of get_next_imf where exactly one envelope is
+    # missing is where an up/down asymmetry of the control flow shows, and only a negative factor exchanges the two
+    frs = np.random.RandomState(ctx.seed * 31 + 9)
+    for i in range(n_few):
+        if i % 2:
+            x = np.cumsum(frs.normal(size=frs.randint(6, 24)))
+        else:
+            n = frs.randint(10, 30)
+            x = np.convolve(frs.normal(size=n + 8), np.ones(5) / 5, 'valid')[:n]
+        io = {} if i % 3 else {'stop_method': 'fixed', 'max_iters': int(frs.randint(2, 6))}
+        case = dict(kind='sift' if i % 4 else 'gni', family='few-extrema', signal=[float(v) for v in x], imf_opts=io, envelope_opts={},
+                    extrema_opts={}, reuse_opts=False, sift_thresh=1e-8, max_imfs=None,
+                    transform={'scale': -(2.0 ** int(frs.randint(-2, 3)))}, compare='exact')
+        cases.append(case)
     return cases
 
 
@@ -500,7 +515,7 @@ def run(ctx):
                 'order-one amplitude, length 24..200) x {sd,rilling,fixed} x step {1,1/2,1/4} x {splrep,pchip,mono_pchip} x pad 1..4 x '
                 'magnitude padding {default median-1, reflect, symmetric, mean-2, median-3, edge; fresh options per call or one dict reused '
                 'across the two calls} (x energy option): get_next_imf and sift under c = +-2^k, |k| <= 8 (np.array_equal, sift_thresh*|c|), under arbitrary non-zero reals and '
-                'under time reversal (1e-9*scale); mask_sift ratio_sig/ratio_imf x nphases {1,2,3,4,8} under c > 0 and, for even nphases, c < 0. '
+                'under time reversal (1e-9*scale); few-extrema family (random walks / smoothed noise of 6..30 samples, default and fixed-iteration options) under c = -2^k bit for bit; mask_sift ratio_sig/ratio_imf x nphases {1,2,3,4,8} under c > 0 and, for even nphases, c < 0. '
                 'guard band: a case is discarded when a recorded stop metric / per-sample Rilling metric / energy ratio / component abs-sum '
                 'lies within 1e-6 relative of its threshold, two neighbouring samples of an iterate differ by less than 1e-9 relative, or (mask_freqs=zc) '
                 'a sample of the IMF whose sign changes set the mask frequency is within 1e-9 relative of zero '
@@ -515,7 +530,9 @@ def run(ctx):
                      'differ by O(1))')
     ctx.notes.append('the concrete Coq layer is over integer lists with a Z-valued half-envelope interpolant oracle; rational data is covered by '
                      'the abstract theorems (any signal type)')
-    ctx.proof()
+    # translation ties: the Symmetry model is built on SiftCore.gni_loop / peel_loop and on model/Extrema.v; the skeletons of
+    # get_next_imf / sift / mask_sift and of the extrema routines are regenerated from the source and their refinement re-checked
+    ctx.proof(extra=['props/Prop_Tie_Sift.v', 'props/Prop_Tie_Extrema.v'])
     from emd import sift
     bad = []
     # ---- (1) stages, exact
@@ -593,9 +610,9 @@ def run(ctx):
     ctx.extra['envelope_equivariance_max_rel_dev'] = wenv
     # ---- (4) oracle
     if quick:
-        ocases = gen_cases(ctx, 60, 50, 50, 36)
+        ocases = gen_cases(ctx, 60, 50, 50, 36, 300)
     else:
-        ocases = gen_cases(ctx, 1500, 1300, 1300, 900)
+        ocases = gen_cases(ctx, 1500, 1300, 1300, 900, 6000)
     mpctx = multiprocessing.get_context('fork')
     with concurrent.futures.ProcessPoolExecutor(max_workers=14, mp_context=mpctx) as ex:
         results = list(ex.map(_worker, ocases, chunksize=2))
